@@ -18,6 +18,39 @@ def mk(name, path, old, new):
     open(f"/verif/mutants/{name}.diff", "w").write(d)
     subprocess.run(["git", "checkout", "-q", "."])
 
+mk('C05-ordered-iter-early-exit-keeps-lock', 'cache_impl.go',
+'''		c.evictionMutex.Lock()
+		defer func() {
+			c.evictionMutex.Unlock()
+			c.rescheduleCleanUpIfIncomplete()
+		}()
+		c.maintenance(nil)
+
+		for n := range seq {
+			nowNano := c.clock.NowNano()
+			if !n.IsAlive() || n.HasExpired(nowNano) {
+				continue
+			}
+			if !yield(c.nodeToEntry(n, nowNano)) {
+				return
+			}
+		}
+''',
+'''		c.evictionMutex.Lock()
+		c.maintenance(nil)
+
+		for n := range seq {
+			nowNano := c.clock.NowNano()
+			if !n.IsAlive() || n.HasExpired(nowNano) {
+				continue
+			}
+			if !yield(c.nodeToEntry(n, nowNano)) {
+				return
+			}
+		}
+		c.evictionMutex.Unlock()
+		c.rescheduleCleanUpIfIncomplete()
+''')
 mk('C16-jump-before-link', 'internal/deque/queue/mpsc.go',
 '''	//nolint:gosec // it's ok
 	atomic.StorePointer(&oldBuffer.data[nextArrayOffset(oldMask)], unsafe.Pointer(newBuffer)) // buffer linked
